@@ -1,11 +1,129 @@
-(* Props/C16.v — property C16: plots draw the periodic lattice completely, once, in the right colours. *)
-From Coq Require Import List ZArith QArith Bool.
-From Koala Require Import Model.Clip Model.Plot Proofs.ClipFacts Proofs.PlotFacts.
+(* Props/C16.v — property C16: plots draw the periodic lattice completely, once, and in the
+   right colours; label broadcasting; exact segment intersection.
+   Model: Model/Plot.v (plotting.py) and Model/Clip.v (exact clipping), over Q.
+
+   NOT covered by a theorem (S/K only): plaquette coverage (Sutherland–Hodgman clipped areas
+   sum to the plaquette area, no overlap), vertices at their positions (definitional in the
+   model), arrows, the parallel/colinear tolerance branches of line_intersection (K only). *)
+From Coq Require Import List ZArith QArith Bool Qminmax Qabs.
+From Koala Require Import Model.Clip Model.Plot Proofs.ClipFacts Proofs.PlotFacts Proofs.VisFacts.
 Import ListNotations.
 
-(* clause "labels ... scalar label = constant array" *)
-Theorem C16_broadcast_scalar : forall (z : Z) (idx : list nat) (N : nat),
-  Forall (fun i => (i < N)%nat) idx ->
-  broadcast_args (LScalar z) idx N = Ok (repeat z (length idx)).
-Proof. exact broadcast_scalar. Qed.
+(* ---- clause "labels may be given per element or per subset element with the same result" ----
+   for every subset form (slice / mask / index list: [s] is arbitrary).  Side condition: the
+   subset does not have exactly N elements, or is the identity — when it has exactly N
+   elements a length-N array IS the per-element form by definition (API convention). *)
+Theorem C16_broadcast_equiv : forall (C : Type) (N : nat) (s : subset) (lab : list Z) (scheme : list C) (idx : list nat),
+  subset_indices N s = Ok idx -> length lab = N -> (length idx <> N \/ idx = seq 0 N) ->
+  process_plot_args N s (LList (map (fun i => nth i lab 0%Z) idx)) scheme
+  = process_plot_args N s (LList lab) scheme.
+Proof. exact @broadcast_equiv. Qed.
+Print Assumptions C16_broadcast_equiv.
+
+(* boolean masks: no side condition *)
+Theorem C16_broadcast_equiv_mask : forall (C : Type) (N : nat) (m : list bool) (lab : list Z) (scheme : list C) (idx : list nat),
+  subset_indices N (SMask m) = Ok idx -> length lab = N ->
+  process_plot_args N (SMask m) (LList (map (fun i => nth i lab 0%Z) idx)) scheme
+  = process_plot_args N (SMask m) (LList lab) scheme.
+Proof. exact @broadcast_equiv_mask. Qed.
+Print Assumptions C16_broadcast_equiv_mask.
+
+(* scalar label = constant colour array *)
+Theorem C16_broadcast_scalar : forall (C : Type) (N : nat) (s : subset) (z : Z) (scheme : list C) (idx : list nat) (c : C),
+  subset_indices N s = Ok idx -> scheme_at scheme z = Ok c ->
+  process_plot_args N s (LScalar z) scheme = Ok (idx, repeat c (length idx)).
+Proof. exact @broadcast_scalar_constant. Qed.
 Print Assumptions C16_broadcast_scalar.
+
+(* wrong length => ValueError *)
+Theorem C16_broadcast_wrong_length : forall (C : Type) (N : nat) (s : subset) (lab : list Z) (scheme : list C) (idx : list nat),
+  subset_indices N s = Ok idx -> length lab <> N -> length lab <> length idx ->
+  process_plot_args N s (LList lab) scheme = Error ValueError.
+Proof. exact @broadcast_wrong_length. Qed.
+Print Assumptions C16_broadcast_wrong_length.
+
+(* ---- clause "each drawn piece carries the colour selected by that element's label" ----
+   element idx[k] of the subset is given colour scheme[lab[idx[k]]] *)
+Theorem C16_colours_pointwise : forall (C : Type) (N : nat) (s : subset) (lab : list Z) (scheme : list C) (idx : list nat) (cols : list C),
+  length lab = N -> process_plot_args N s (LList lab) scheme = Ok (idx, cols) ->
+  subset_indices N s = Ok idx /\ length cols = length idx /\
+  forall k d dc, (k < length idx)%nat -> scheme_at scheme (nth (nth k idx d) lab 0%Z) = Ok (nth k cols dc).
+Proof. exact @colours_pointwise. Qed.
+Print Assumptions C16_colours_pointwise.
+
+(* subset indices are valid element indices, for the three forms *)
+Theorem C16_subset_indices_range : forall (N : nat) (s : subset) (idx : list nat),
+  subset_indices N s = Ok idx -> Forall (fun i => (i < N)%nat) idx.
+Proof. exact subset_indices_range. Qed.
+Print Assumptions C16_subset_indices_range.
+
+Open Scope Q_scope.
+
+(* ---- the measure used by the spec checker: the Liang–Barsky interval is exactly the set of
+   parameters at which the segment is inside the closed unit cell ---- *)
+Theorem C16_clip_interval_correct : forall (s : seg) (t : Q),
+  (exists lo hi, clip_interval s = Some (lo, hi) /\ lo <= t /\ t <= hi)
+  <-> (0 <= t /\ t <= 1 /\ in_unit_square (seg_point s t)).
+Proof. exact clip_interval_correct. Qed.
+Print Assumptions C16_clip_interval_correct.
+
+(* ---- clause "every edge appears ... in every periodic image that meets the cell":
+   the nine translates of plot_edges suffice ---- *)
+Theorem C16_nine_suffice : forall (s : seg) (n m : Z),
+  0 <= px (seg_end s) -> px (seg_end s) < 1 -> 0 <= py (seg_end s) -> py (seg_end s) < 1 ->
+  -(1) < px (seg_start s) - px (seg_end s) -> px (seg_start s) - px (seg_end s) < 1 ->
+  -(1) < py (seg_start s) - py (seg_end s) -> py (seg_start s) - py (seg_end s) < 1 ->
+  (2 <= Z.abs n \/ 2 <= Z.abs m)%Z ->
+  clip_interval (seg_translate s (zpoint (n, m))) = None.
+Proof. exact nine_suffice. Qed.
+Print Assumptions C16_nine_suffice.
+
+(* ---- "... appears in full": a translate whose part inside the cell has positive length
+   passes the visibility rule (generic position: no end-point coordinate on a cell line,
+   segment not through the corner (0,0)) ---- *)
+Theorem C16_visibility_complete : forall (s : seg) (lo hi : Q),
+  generic_seg s -> misses_origin s ->
+  clip_interval s = Some (lo, hi) -> lo < hi ->
+  visible s = true.
+Proof. exact visibility_complete. Qed.
+Print Assumptions C16_visibility_complete.
+
+(* conversely whatever passes the rule meets the closed cell (no hypotheses) *)
+Theorem C16_visibility_sound : forall s : seg,
+  visible s = true -> exists lo hi, clip_interval s = Some (lo, hi).
+Proof. exact visibility_sound. Qed.
+Print Assumptions C16_visibility_sound.
+
+(* ---- clause "the segment-intersection helper agrees with exact arithmetic for segments in
+   general position" (non-parallel: |d2 x d1| >= tol and d2 x d1 <> 0) ---- *)
+Theorem C16_segment_intersection_exact : forall (tol : Q) (l1 l2 : seg),
+  ~ dir_cross l1 l2 == 0 -> tol <= Qabs (dir_cross l1 l2) ->
+  (line_intersection tol l1 l2 = true <-> segments_meet l1 l2).
+Proof. exact segment_intersection_exact. Qed.
+Print Assumptions C16_segment_intersection_exact.
+
+(* ---- non-vacuity ---- *)
+(* an edge of the honeycomb kind crossing x = 0: two of the nine translates are drawn, the
+   clip lengths are 1/3 and 2/3 *)
+Definition ex_seg : seg := ((-(1#4), 1#4), (1#8, 5#8)).
+Example C16_visibility_complete_nonvacuous :
+  clip_len ex_seg == 1#3 /\ visible ex_seg = true /\
+  clip_len (seg_translate ex_seg (zpoint (1, 0)%Z)) == 2#3 /\ visible (seg_translate ex_seg (zpoint (1, 0)%Z)) = true /\
+  generic_seg ex_seg.
+Proof.
+  split; [vm_compute; reflexivity|]. split; [vm_compute; reflexivity|].
+  split; [vm_compute; reflexivity|]. split; [vm_compute; reflexivity|].
+  unfold generic_seg, ex_seg; simpl. repeat split; intro H; vm_compute in H; discriminate.
+Qed.
+Example C16_broadcast_equiv_nonvacuous :
+  subset_indices 5 (SSlice (Some (-1)%Z) None (Some (-2)%Z)) = Ok [4; 2; 0]%nat /\
+  process_plot_args 5 (SSlice (Some (-1)%Z) None (Some (-2)%Z)) (LList [0; 1; 2; 1; 0]%Z) [10; 20; 30]%Z
+  = Ok ([4; 2; 0]%nat, [10; 30; 10]%Z) /\
+  process_plot_args 5 (SSlice (Some (-1)%Z) None (Some (-2)%Z)) (LList [0; 2; 0]%Z) [10; 20; 30]%Z
+  = Ok ([4; 2; 0]%nat, [10; 30; 10]%Z).
+Proof. repeat split; vm_compute; reflexivity. Qed.
+Example C16_segment_intersection_nonvacuous :
+  let l1 : seg := ((0, 0), (1, 1)) in let l2 : seg := ((0, 1), (1, 0)) in
+  ~ dir_cross l1 l2 == 0 /\ (1 # 100000000000000) <= Qabs (dir_cross l1 l2) /\
+  line_intersection (1 # 100000000000000) l1 l2 = true.
+Proof. cbv zeta. split; [intro H; vm_compute in H; discriminate|]. split; vm_compute; [intro H; discriminate|reflexivity]. Qed.
